@@ -1113,3 +1113,219 @@ Definition f12_witness : stack := Stk None [] (Some (a "<ML" ++ [10%N] ++ a "lin
 Lemma F12_refuted :
   exists s o, single_lines (fmt_stack_str o s) = false.
 Proof. exists f12_witness, {| M_Format.ascii := false; show_ctx := true; show_hidden := false |}. vm_compute. reflexivity. Qed.
+
+(* ------------------------------------------------------------------ lexing a rendered line (unicode mode) *)
+(* CC and ERR are the same two blanks; every other prepended marker is a different string *)
+Definition canon (m : marker) : marker := match m with ERR => CC | CCI => SC | m => m end.
+(* the body does not start with a marker string ("marker-free at the boundary") *)
+Definition bfree (b : text) : bool :=
+  forallb (fun m => negb (prefix_b (mstr false m) b)) [SF;CF;SL;SCX;CCX;SCC;SCODE;SC;CC].
+(* shape of the marker chains the formatter builds: ERR only as the last marker, CC as the last
+   marker only on a blank line, the child indicator is never prepended *)
+Fixpoint chain_ok (ms : list marker) (b : text) : bool :=
+  match ms with
+  | [] => true
+  | [ERR] => true
+  | [CC] => text_eqb b nl
+  | ERR :: _ => false
+  | CCI :: _ => false
+  | _ :: r => chain_ok r b
+  end.
+(* an error line is not empty (an empty error subline under a child is rendered exactly like
+   the blank line around a populated child stack: see lex_blank_ambiguous) *)
+Fixpoint err_nb (ms : list marker) (b : text) : bool :=
+  match ms with
+  | [] => true
+  | [ERR] => negb (text_eqb b nl)
+  | _ :: r => err_nb r b
+  end.
+
+Lemma app_eq_len {A} (x y u v : list A) : List.length x = List.length u -> x ++ y = u ++ v -> x = u /\ y = v.
+Proof.
+  revert u. induction x as [|a x IH]; destruct u as [|c u]; simpl; try discriminate; auto.
+  intros HL HE. injection HL as HL. injection HE as -> HE. destruct (IH u HL HE) as [-> ->]. auto.
+Qed.
+Lemma mstr_len2 m : List.length (mstr false m) = 2.
+Proof. destruct m; reflexivity. Qed.
+Lemma mstr_inj m1 m2 : mstr false m1 = mstr false m2 -> canon m1 = canon m2.
+Proof. destruct m1, m2; intros H; try reflexivity; vm_compute in H; discriminate. Qed.
+Lemma prefix_b_app p x : prefix_b p (p ++ x) = true.
+Proof. induction p as [|c p IH]; simpl; auto. rewrite N.eqb_refl, IH. reflexivity. Qed.
+Lemma bfree_spec b m : bfree b = true -> prefix_b (mstr false m) b = false.
+Proof.
+  unfold bfree. intros H. rewrite forallb_forall in H.
+  assert (E : exists m', In m' [SF;CF;SL;SCX;CCX;SCC;SCODE;SC;CC] /\ mstr false m = mstr false m').
+  { exists (canon m). destruct m; simpl; split; try reflexivity; tauto. }
+  destruct E as [m' [Hin ->]]. specialize (H m' Hin). destruct (prefix_b (mstr false m') b); auto; discriminate.
+Qed.
+
+Lemma render_cons asc m ms b : render asc (m :: ms, b) = mstr asc m ++ render asc (ms, b).
+Proof. unfold render. simpl. rewrite app_assoc. reflexivity. Qed.
+
+Lemma render_inj_canon ms1 : forall ms2 b1 b2,
+  bfree b1 = true -> bfree b2 = true ->
+  render false (ms1, b1) = render false (ms2, b2) -> map canon ms1 = map canon ms2 /\ b1 = b2.
+Proof.
+  induction ms1 as [|m1 ms1 IH]; intros [|m2 ms2] b1 b2 H1 H2 E.
+  - split; auto.
+  - exfalso. rewrite render_cons in E. unfold render in E at 1. simpl in E. subst b1.
+    pose proof (bfree_spec _ m2 H1) as F. rewrite prefix_b_app in F. discriminate.
+  - exfalso. rewrite render_cons in E. unfold render in E at 2. simpl in E. subst b2.
+    pose proof (bfree_spec _ m1 H2) as F. rewrite prefix_b_app in F. discriminate.
+  - rewrite !render_cons in E. apply app_eq_len in E; [|rewrite !mstr_len2; reflexivity].
+    destruct E as [Em Er]. destruct (IH ms2 b1 b2 H1 H2 Er) as [Ec ->]. simpl. rewrite Ec, (mstr_inj _ _ Em). auto.
+Qed.
+
+Lemma chain_ok_tail m r b : chain_ok (m :: r) b = true -> chain_ok r b = true.
+Proof. destruct m, r; simpl; auto; discriminate. Qed.
+Lemma err_nb_tail m r b : err_nb (m :: r) b = true -> err_nb r b = true.
+Proof. destruct m, r; simpl; auto. Qed.
+
+Lemma canon_chain_unique ms1 : forall ms2 b,
+  map canon ms1 = map canon ms2 ->
+  chain_ok ms1 b = true -> chain_ok ms2 b = true -> err_nb ms1 b = true -> err_nb ms2 b = true -> ms1 = ms2.
+Proof.
+  induction ms1 as [|m1 r1 IH]; intros [|m2 r2] b E C1 C2 N1 N2; try discriminate; auto.
+  simpl in E. injection E as Em Er.
+  assert (Hr : r1 = r2).
+  { apply (IH r2 b Er); eauto using chain_ok_tail, err_nb_tail. }
+  subst r2. f_equal.
+  destruct m1, m2; try reflexivity; try discriminate Em; destruct r1; simpl in *; try discriminate;
+    try (rewrite C1 in *; discriminate); try (rewrite C2 in *; discriminate).
+Qed.
+
+Definition lex_ok (l : sline) : bool := chain_ok (fst l) (snd l) && err_nb (fst l) (snd l) && bfree (snd l).
+
+(* in unicode mode the structured line is uniquely determined by the rendered string *)
+Theorem lex_unique l1 l2 :
+  lex_ok l1 = true -> lex_ok l2 = true -> render false l1 = render false l2 -> l1 = l2.
+Proof.
+  destruct l1 as [ms1 b1], l2 as [ms2 b2]. unfold lex_ok. simpl. intros H1 H2 E.
+  apply andb_true_iff in H1 as [H1 F1]. apply andb_true_iff in H1 as [C1 N1].
+  apply andb_true_iff in H2 as [H2 F2]. apply andb_true_iff in H2 as [C2 N2].
+  destruct (render_inj_canon ms1 ms2 b1 b2 F1 F2 E) as [Ec ->]. f_equal.
+  eapply canon_chain_unique; eauto.
+Qed.
+
+(* every line the formatter produces has a well-shaped marker chain *)
+Notation CK := (fun l : sline => chain_ok (fst l) (snd l) = true).
+
+Lemma CK_add_plain m l : (match m with CC | ERR | CCI => false | _ => true end) = true -> CK l -> CK (sl_add m l).
+Proof. destruct l as [ms b]. destruct m; simpl; try discriminate; auto. Qed.
+Lemma CK_add_CC p l : head_is p l = true -> CK l -> CK (sl_add CC l).
+Proof. destruct l as [[|m ms] b]; unfold head_is; simpl; [discriminate|auto]. Qed.
+
+Section ChainShape.
+  Variable o : fopts.
+  Notation B := (fmt_body_sl o).
+  Notation Fm := (fmt_frame_sl o).
+  Notation Cx := (fmt_ctx_sl o).
+  Notation KL := (fmt_kids sline sl_lit sl_add sl_is_blank (Cx false false) B).
+
+  Lemma CK_pref_plain A g ls :
+    (match A with CC | ERR | CCI => false | _ => true end) = true ->
+    (forall l, (match g l with CC | ERR | CCI => false | _ => true end) = true) ->
+    Forall CK ls -> Forall CK (pref A g ls).
+  Proof.
+    intros HA Hg H. destruct ls as [|l0 r]; simpl; [constructor|]. inversion H; subst.
+    constructor; [apply CK_add_plain; auto|].
+    apply Forall_forall. intros x Hx. apply in_map_iff in Hx as [l [<- Hl]].
+    apply CK_add_plain; auto. eapply Forall_forall in H3; eauto.
+  Qed.
+
+  Lemma CK_pref_CC p l0 r : CK l0 -> Forall CK r -> hd_ok p r -> Forall CK (pref SC (fun _ => CC) (l0 :: r)).
+  Proof.
+    intros H0 Hr Hh. simpl. constructor; [apply CK_add_plain; auto|].
+    apply Forall_forall. intros x Hx. apply in_map_iff in Hx as [l [<- Hl]].
+    apply (CK_add_CC p); [eapply Forall_forall in Hh | eapply Forall_forall in Hr]; eauto.
+  Qed.
+
+  Definition Ks (s : stack) : Prop := Forall CK (B s).
+  Definition Kf (f : frame) : Prop := Forall CK (Fm f).
+  Definition Kc (c : context) : Prop := forall hp sl, Forall CK (Cx hp sl c).
+  Definition Kk (k : child) : Prop := match k with KCtx c => Kc c | KStk s => Ks s end.
+
+  Lemma ck_kids ks : Forall Kk ks -> forall db, Forall CK (KL db ks).
+  Proof.
+    destruct (roundtrip_all o) as [RS [_ [RC _]]].
+    induction 1 as [|k ks Hk _ IH]; intros db; simpl; [constructor|].
+    apply Forall_app; split; [|apply Forall_app; split; [|apply IH]].
+    - destruct k as [c|s]; simpl; [constructor|]. destruct (nonempty (s_frames s)); simpl; [|constructor].
+      destruct db; repeat constructor.
+    - rewrite prefix_block_pref. destruct k as [c|s]; simpl snd.
+      + destruct (vis o (c_hide c)) eqn:Hv.
+        * rewrite (Cx_visible o false false c Hv). apply (CK_pref_CC node_head); [reflexivity| |apply (RC c false false Hv)].
+          pose proof (Hk false false) as H. rewrite (Cx_visible o false false c Hv) in H. inversion H; auto.
+        * rewrite (Cx_hidden o false false c Hv). constructor.
+      + destruct (nonempty (s_frames s)); simpl snd.
+        * change ((sl_lit (child_root_line (s_root s)) :: B s) ++ [sl_lit nl])
+            with (sl_lit (child_root_line (s_root s)) :: B s ++ [sl_lit nl]).
+          simpl pref. constructor; [reflexivity|]. rewrite map_app. apply Forall_app; split.
+          -- apply Forall_forall. intros x Hx. apply in_map_iff in Hx as [l [<- Hl]].
+             apply (CK_add_CC body_head).
+             ++ destruct (RS s) as [Hh _]. eapply Forall_forall in Hh; eauto.
+             ++ eapply Forall_forall in Hk; eauto.
+          -- repeat constructor.
+        * apply (CK_pref_CC body_head); [reflexivity | exact Hk | apply (RS s)].
+  Qed.
+
+  Lemma chain_all : (forall s, Ks s) /\ (forall f, Kf f) /\ (forall c, Kc c) /\ (forall k, Kk k).
+  Proof.
+    apply tree_ind.
+    - intros r fs lf er HF. unfold Ks. rewrite B_eq. apply Forall_app; split; [|apply Forall_app; split].
+      + apply Forall_flat_map_in. intros f Hin. destruct (f_hide f && negb (show_hidden o)); [constructor|].
+        rewrite prefix_block_pref. apply CK_pref_plain; auto. eapply Forall_forall in HF; eauto.
+      + destruct lf; simpl; repeat constructor.
+      + destruct er; simpl; [|constructor]. constructor; [reflexivity|].
+        apply Forall_forall. intros x Hx. apply in_map_iff in Hx as [l9 [<- _]]. reflexivity.
+    - intros fn cls md file ln src loc h hl cs HC. unfold Kf. rewrite Fm_eq. constructor; [reflexivity|].
+      apply Forall_app; split.
+      + destruct (show_ctx o); [|constructor]. apply Forall_flat_map_in. intros c Hin.
+        rewrite prefix_ctx_pref.
+        apply CK_pref_plain; [reflexivity | intros l; destruct (sl_is_child l); reflexivity | ].
+        eapply Forall_forall in HC; [|eassumption]. apply HC.
+      + unfold code_lines. destruct (last_exiting _); [constructor|]. destruct (nonempty _); repeat constructor.
+    - intros ty asy ex vn sl0 ds cs cr orp inn ks h Hi HK hp sl. rewrite Cx_eq.
+      destruct (c_hide _ && negb (show_hidden o)); [constructor|]. constructor; [reflexivity|].
+      apply Forall_app; split; [destruct inn; [apply Hi | constructor] | apply ck_kids; exact HK].
+    - auto.
+    - auto.
+  Qed.
+
+  Theorem chain_shape s : Forall CK (fmt_stack_sl o s).
+  Proof. unfold fmt_stack_sl, fmt_stack. constructor; [reflexivity|]. apply chain_all. Qed.
+End ChainShape.
+
+(* -- the ambiguities that remain *)
+Definition sline_eqb (x y : sline) : bool := list_eqb marker_eqb (fst x) (fst y) && text_eqb (snd x) (snd y).
+Definition uni := {| M_Format.ascii := false; show_ctx := true; show_hidden := false |}.
+Definition asc_o := {| M_Format.ascii := true; show_ctx := true; show_hidden := false |}.
+
+(* unicode mode, line level: an empty error line below a context and the blank line that
+   surrounds a populated child stack are the same characters; both occur in formatted trees *)
+Definition amb_frame (cs : list context) : frame :=
+  Frm (a "f") None (Some (a "m")) (a "x.py") 3%N [] [] false false cs.
+Definition amb_t1 : stack :=   (* inner stack whose error text has an empty line *)
+  Stk None [amb_frame [Ctx None false false None None (Some (a "c")) [] [] []
+                           (Some (Stk None [] None (Some [a "E: a" ++ nl ++ nl]))) [] false]] None None.
+Definition amb_t2 : stack :=   (* populated child stack *)
+  Stk None [amb_frame [Ctx None false false None None (Some (a "c")) [] [] [] None
+                           [KStk (Stk None [amb_frame []] None None)] false]] None None.
+Lemma lex_blank_ambiguous :
+  let l1 := ([CF; CCX; ERR], nl) in let l2 := ([CF; CCX; CC], nl) in
+  existsb (sline_eqb l1) (fmt_stack_sl uni amb_t1) = true
+  /\ existsb (sline_eqb l2) (fmt_stack_sl uni amb_t2) = true
+  /\ render false l1 = render false l2 /\ l1 <> l2
+  /\ chain_ok (fst l1) (snd l1) = true /\ chain_ok (fst l2) (snd l2) = true
+  /\ bfree (snd l1) = true /\ err_nb (fst l1) (snd l1) = false.
+Proof. vm_compute. repeat split; discriminate. Qed.
+
+(* ascii mode, whole text: start_frame and start_leaf are both "+ ", so a stack with one frame
+   and a frame-less stack whose leaf's repr spells that frame's line print identically *)
+Definition asc_t1 : stack := Stk None [amb_frame []] None None.
+Definition asc_t2 : stack := Stk None [] (Some (a "f in m at x.py:3")) None.
+Lemma ascii_ambiguous :
+  fmt_stack_str asc_o asc_t1 = fmt_stack_str asc_o asc_t2
+  /\ skeleton_visible asc_o asc_t1 <> skeleton_visible asc_o asc_t2
+  /\ fmt_stack_str uni asc_t1 <> fmt_stack_str uni asc_t2.
+Proof. vm_compute. repeat split; discriminate. Qed.
